@@ -22,9 +22,20 @@ type CrashCase struct {
 	Inject     *Inject     `json:"inject,omitempty"`
 	Bulk       []int       `json:"bulk,omitempty"` // bulk world: epics, tasks per epic, tasks left open
 	Legacy     bool        `json:"legacy_name,omitempty"`
+	Symlink    bool        `json:"log_is_a_symlink,omitempty"`
 	Violations []Violation `json:"violations,omitempty"`
 	Trace      []string    `json:"trace,omitempty"`
 }
+
+// crashAllowRejected lets the kill enumeration run on commands that the rules reject (or
+// that fail): for them the state before and the state after are the same state.
+var crashAllowRejected bool
+
+// crashExtraSetup, when set, appends a fixed structure to the setup history.
+var crashExtraSetup func(rt *rapid.T, base int) []Op
+
+// crashSetupProfile is the profile of the setup histories of the kill enumeration.
+var crashSetupProfile = &setupProfile
 
 type crashOutcome struct {
 	skipped    string
@@ -52,7 +63,7 @@ func runAtomicityFor(prop string, w *World, pre *Snapshot, target Op, only *Inje
 	var oc crashOutcome
 	oc.kind = target.Kind + "/" + fieldSig(target)
 	w.writeFiles(target.Files) // the model looks at the files a result names
-	if w.Predict(pre, target).Decision == MustReject {
+	if w.Predict(pre, target).Decision == MustReject && !crashAllowRejected {
 		oc.skipped = "model rejects the command"
 		return oc
 	}
@@ -60,7 +71,7 @@ func runAtomicityFor(prop string, w *World, pre *Snapshot, target Op, only *Inje
 	defer RemoveAll(full.Root)
 	full.writeFiles(target.Files)
 	base := StraceRun(full.Build(target), full.Root, nil)
-	if !base.Res.OK() {
+	if !base.Res.OK() && !crashAllowRejected {
 		oc.skipped = "command fails without any fault: " + clip(base.Res.Stderr, 120)
 		return oc
 	}
@@ -71,6 +82,13 @@ func runAtomicityFor(prop string, w *World, pre *Snapshot, target Op, only *Inje
 	}
 	cPre := CanonSnap(pre, pre, w.Root)
 	cPost := CanonSnap(postF, pre, full.Root)
+	if !base.Res.OK() {
+		oc.kind = "rejected:" + oc.kind
+		if d := canonDiff(cPost, cPre); len(d) > 0 {
+			oc.skipped = "the failing command changes the store even when nothing disturbs it (C10 owns that)"
+			return oc
+		}
+	}
 	first, last := firstLastMutating(base.Calls)
 	points := KillPoints(base.Calls)
 	if only != nil {
@@ -167,6 +185,9 @@ func replayCrash(t *testing.T, path string, run func(w *World, pre *Snapshot, cc
 	if cc.Legacy {
 		schedPre{Legacy: true}.apply(w.Root)
 	}
+	if cc.Symlink {
+		schedPre{SymlinkLog: true}.apply(w.Root)
+	}
 	oc := run(w, pre, cc)
 	if oc.skipped != "" {
 		t.Logf("instance skipped: %s", oc.skipped)
@@ -212,7 +233,11 @@ func runCrashTest(t *testing.T, prop, test, rule string, gen func(rt *rapid.T, w
 				return nil, false
 			}
 			for i := 0; i < nsetup; i++ {
-				op := genOp(rt, w, pre, setupProfile)
+				op := genOp(rt, w, pre, *crashSetupProfile)
+				if i == 0 && pct(rt, 8, "setup.big") {
+					// a log larger than the 64 KiB windows readers and rewriters work with
+					op = Op{Kind: "new_task", Mode: "bodystdin", Title: sp(w.UniqueTitle("big")), Body: sp(bigBody(between(rt, 66000, 150000, "setup.bigsize")))}
+				}
 				op.N = i
 				setup = append(setup, op)
 				out := w.Step(pre, op)
@@ -223,6 +248,17 @@ func runCrashTest(t *testing.T, prop, test, rule string, gen func(rt *rapid.T, w
 			}
 			return pre, true
 		}()
+		if ok && crashExtraSetup != nil {
+			for _, op := range crashExtraSetup(rt, 100) {
+				setup = append(setup, op)
+				out := w.Step(pre, op)
+				if out.Post == nil || out.Abort != "" || len(out.Viol) > 0 {
+					ok = false
+					break
+				}
+				pre = out.Post
+			}
+		}
 		if !ok {
 			stats.Abort("setup history hit a violation of another property")
 			return
@@ -232,11 +268,16 @@ func runCrashTest(t *testing.T, prop, test, rule string, gen func(rt *rapid.T, w
 			schedPre{Legacy: true}.apply(w.Root)
 			stats.Label("legacy_file_name")
 		}
+		symlink := pct(rt, 8, "symlink")
+		if symlink {
+			schedPre{SymlinkLog: true}.apply(w.Root)
+			stats.Label("log_is_a_symlink")
+		}
 		target := gen(rt, w, pre)
 		target.N = len(setup)
 		oc := runAtomicityFor(prop, w, pre, target, nil)
 		if len(oc.viol) > 0 {
-			WriteReplay(replayPath, CrashCase{Property: prop, Engine: "CRASH", Test: test, Setup: setup, Target: target, Inject: oc.failing, Violations: oc.viol, Trace: oc.trace, Legacy: legacy})
+			WriteReplay(replayPath, CrashCase{Property: prop, Engine: "CRASH", Test: test, Setup: setup, Target: target, Inject: oc.failing, Violations: oc.viol, Trace: oc.trace, Legacy: legacy, Symlink: symlink})
 			rt.Fatalf("%s violated: %v", prop, oc.viol)
 		}
 		stats.Eval()
@@ -245,6 +286,13 @@ func runCrashTest(t *testing.T, prop, test, rule string, gen func(rt *rapid.T, w
 			return
 		}
 		stats.Label("cmd." + target.Kind)
+		if strings.HasPrefix(oc.kind, "rejected:") {
+			stats.Label("target.rejected_or_failing")
+			stats.NonTrivial(fmt.Sprintf("%s/%d", oc.kind, oc.points))
+			if target.Epic != nil && target.Title != nil && target.Kind == "set" {
+				stats.Label("target.epic_move_closing_a_waits_for_cycle")
+			}
+		}
 		stats.LabelN("kill_points", oc.points)
 		stats.LabelN("kills_landed", oc.killed)
 		stats.LabelN("follow_up_commands_after_a_kill", oc.followUps)
@@ -259,6 +307,49 @@ func runCrashTest(t *testing.T, prop, test, rule string, gen func(rt *rapid.T, w
 
 func TestC04(t *testing.T) {
 	runCrashTest(t, "C04", "TestC04", "for a generated store (short random history) and a generated multi-event command (claim, claim <id>, set with 2-5 fields incl. bodies > 4 KiB, create with state/claim/result, sequence of >= 3, prune of >= 2 items, plan, compact) the command is re-run on a fresh copy once per system call it issues on the store's files, killed by SIGKILL exactly before that call (strace injection); after each kill the observable state must equal the state before the command or the state after an undisturbed run; non-trivial = the kill landed after the command's first and before its last mutating call; distinct = (command shape, kill position)", genMultiEventOp)
+}
+
+// TestC04Rejected: a command the rules reject records nothing - also when it is killed at
+// any point on its way to saying so. Multi-field requests that fail late (an epic move that
+// would close a waits-for cycle, a sequence whose last edge is illegal, a result next to an
+// illegal state) are the ones an "append first, take it back on error" shortcut breaks.
+func TestC04Rejected(t *testing.T) {
+	crashAllowRejected = true
+	two := Profile{Name: "two-level-setup", Weights: map[string]int{"new_task": 44, "new_epic": 22, "sequence": 16, "set": 10, "plan": 3}, EpicPct: 80, StatePct: 8, ClaimPct: 4, SeqEpicPct: 40}
+	crashSetupProfile = &two
+	crashExtraSetup = func(rt *rapid.T, base int) []Op {
+		if !pct(rt, 60, "extra.structure") {
+			return nil
+		}
+		// epic E2 after epic E1, task A in E1 after a free task B: moving B into E2 (or
+		// making B wait for a task of E2) would close a waits-for cycle
+		e1, e2, a, b := Ref{Op: base}, Ref{Op: base + 1}, Ref{Op: base + 3}, Ref{Op: base + 4}
+		return []Op{
+			{N: base, Kind: "new_epic", Mode: "json", Title: sp("first epic")},
+			{N: base + 1, Kind: "new_epic", Mode: "json", Title: sp("second epic")},
+			{N: base + 2, Kind: "sequence", Refs: []Ref{e1, e2}},
+			{N: base + 3, Kind: "new_task", Mode: "json", Title: sp("in the first epic"), Epic: &e1},
+			{N: base + 4, Kind: "new_task", Mode: "json", Title: sp("free task")},
+			{N: base + 5, Kind: "sequence", Refs: []Ref{b, a}},
+		}
+	}
+	runCrashTest(t, "C04", "TestC04Rejected", "for a generated two-level store and a generated multi-field command that the rules reject or that fails late (an epic move / a dependency that would close a waits-for cycle together with title and body, a chain whose last edge is illegal, fields next to an illegal transition, a result that must be refused), the command is re-run on a fresh copy once per system call it issues on the store's files and killed exactly before that call; for a rejected command before and after are the same state, so after each kill (and after one further unrelated command) the store must show exactly the state before; non-trivial = the undisturbed run of the command really fails (plus, as everywhere, kills between a first and a last mutating call, if it makes any); distinct = (command shape, number of kill points)", func(rt *rapid.T, w *World, pre *Snapshot) Op {
+		g := refGen{rt, w, pre}
+		if pct(rt, 55, "rej.cycle") {
+			if task, epic := genWaitCycleMove(rt, g); task != nil {
+				op := Op{Kind: "set", Mode: oneOf(rt, []string{"json", "flags"}, "mode"), Target: task, Epic: epic, Title: sp(w.UniqueTitle("moved")), Agent: "a1"}
+				if pct(rt, 60, "rej.body") {
+					op.Body = sp(bigBody(between(rt, 200, 6000, "rej.bodysize")))
+				}
+				return op
+			}
+			if refs := genWaitCycleEdge(rt, g); refs != nil {
+				return Op{Kind: "sequence", Refs: refs}
+			}
+		}
+		op := genOp(rt, w, pre, Profile{Name: "rejected", Weights: map[string]int{"set": 50, "new_task": 25, "sequence": 15, "plan": 10}, BadRef: 30, Spoil: 45, Results: 25, StatePct: 60, ClaimPct: 30})
+		return op
+	})
 }
 
 func TestC11Crash(t *testing.T) {
